@@ -7,7 +7,10 @@
 (*   form  "attr" (attribute of rdf:Description) | "elem" (child element)       *)
 (*   q     quote character of an attribute: "dq" | "sq"                         *)
 (*   v     length of the value in bytes (0 = the property's natural value)      *)
-(*   ws    white space in front of the token: "sp" | "nl" | "nlsp" | "sp3"      *)
+(*   ws    white space in front of the token: "sp" | "nl" | "nlsp" | "sp3" |     *)
+(*         "run126" | "run127" | "run300" (long runs of blanks: the tag or      *)
+(*         attribute then starts in the last bytes of the 128-byte look-ahead   *)
+(*         window of the tag-header reader, or beyond it)                       *)
 (*   c     content class of a text value: "plain" | "oq" (the value holds the   *)
 (*         quote character that does NOT delimit it - legal XML - and, in an    *)
 (*         element, both quote characters)                                      *)
@@ -22,16 +25,23 @@
 (* does not yields an error and ends the parse; NEVER a wrong value.  The       *)
 (* deviation "edge" (code on the pinned tree) forgets the look-ahead bytes when *)
 (* choosing the window and fails when the quote is the window's last byte.      *)
+(* The deviation "hdrcut" (code on the pinned tree) parses a tag header from   *)
+(* the window in which its '<' was found, so a tag that starts in the last     *)
+(* bytes of the window is cut off.                                             *)
 EXTENDS Integers, Sequences, FiniteSets, TLC, Json, CSV
 
 CONSTANTS TextProps,   \* ids of text-valued properties (value length is free)
           FixedProps,  \* ids of numeric/date/uuid properties (natural value, v = 0)
           VLens,       \* value lengths for text properties
           MaxItems, Forms, Quotes, WSs, Contents,
-          Mode,        \* "design" | "edge"
+          Mode,        \* "design" | "edge" | "hdrcut"
           OutFile
 
 Buf == 1538
+HdrWin == 128                       \* look-ahead of the tag-header reader (grows by 128 while it holds no '<')
+WSLen(w) == CASE w = "nlsp" -> 4 [] w = "sp3" -> 3 [] w = "run126" -> 126 [] w = "run127" -> 127 [] w = "run300" -> 300 [] OTHER -> 1
+\* the deviation: the '<' of an element is found in the last 8 bytes of a window and its name is cut off
+HdrCut(it) == Mode = "hdrcut" /\ it.form = "elem" /\ (WSLen(it.ws) % HdrWin) >= HdrWin - 8
 AttrWins == <<256, 768, 1280>>      \* s := 256; s += 512 while Peek(s) succeeds (1792 > Buf: ErrBufferFull)
 ValWins  == <<512, 1024, 1536>>     \* s := 512; s += 512
 
@@ -67,8 +77,10 @@ GrowAttr == /\ pc = "tok" /\ k <= Len(items) /\ items[k].form = "attr"
             /\ wi' = wi + 1 /\ grows' = grows + 1 /\ UNCHANGED <<items, k, out, err, pc>>
 ReadTagValue == /\ pc = "tok" /\ k <= Len(items) /\ items[k].form = "elem"
                 /\ NeedVal(items[k]) <= ValWins[wi]
-                /\ out' = Append(out, [p |-> items[k].p, v |-> items[k].v]) /\ k' = k + 1 /\ wi' = 1
-                /\ UNCHANGED <<items, err, pc, grows>>
+                /\ IF HdrCut(items[k])
+                     THEN err' = 1 /\ pc' = "done" /\ UNCHANGED <<out, k, wi>>
+                     ELSE out' = Append(out, [p |-> items[k].p, v |-> items[k].v]) /\ k' = k + 1 /\ wi' = 1 /\ UNCHANGED <<err, pc>>
+                /\ UNCHANGED <<items, grows>>
 GrowValue == /\ pc = "tok" /\ k <= Len(items) /\ items[k].form = "elem"
              /\ NeedVal(items[k]) > ValWins[wi] /\ wi < Len(ValWins)
              /\ wi' = wi + 1 /\ grows' = grows + 1 /\ UNCHANGED <<items, k, out, err, pc>>
